@@ -1,8 +1,9 @@
 import AFDriver.Wire
 import AFModel.SamplesIO
+import AFModel.SamplesStats
 
 open Lean (Json)
-open AF AF.Wire AF.SamplesIO
+open AF AF.Wire AF.SamplesIO AF.SamplesStats
 
 namespace AF.Driver
 
@@ -57,6 +58,30 @@ def jsonOfParam (P : Param) : Json :=
 def jsonOfVecOpt : Option (List Float) → Json := jsonOfOpt jsonOfVec
 
 def natJson (n : Nat) : Json := Json.num (n : Lean.JsonNumber)
+
+/-- the rational a finite double denotes -/
+def ratOfFloat (x : Float) : Option Rat :=
+  let bits := x.toBits.toNat
+  let neg := bits / 2 ^ 63 % 2 == 1
+  let ex : Nat := (bits / 2 ^ 52) % 2048
+  let frac : Nat := bits % 2 ^ 52
+  if ex == 2047 then none
+  else
+    let (m, e) : Nat × Int := if ex == 0 then (frac, -1074) else (frac + 2 ^ 52, (ex : Int) - 1075)
+    let mag : Rat := if e ≥ 0 then ((m * 2 ^ e.toNat : Nat) : Rat) else (m : Rat) / ((2 ^ (-e).toNat : Nat) : Rat)
+    some (if neg then -mag else mag)
+
+def jsonOfRat (r : Rat) : Json := Json.str s!"{r.num}/{r.den}"
+
+def ratSample (s : Sample Float) : Option (Sample Rat) := do
+  let ll ← ratOfFloat s.ll
+  let lp ← ratOfFloat s.lp
+  let w ← ratOfFloat s.w
+  let kw ← mapOpt (fun kv : Key × Float => (ratOfFloat kv.2).map fun v => (kv.1, v)) s.kwargs
+  pure ⟨ll, lp, w, kw⟩
+
+def jsonOfEst (e : Est) : Json :=
+  Json.arr #[jsonOfRat e.median, jsonOfRat e.lower, jsonOfRat e.upper, jsonOfRat e.errLower, jsonOfRat e.errUpper]
 
 end C09
 
@@ -117,6 +142,38 @@ def handleC09 (j : Json) : Except String Json := do
     ("eff_values", jsonOfOpt (fun e => jsonOfList jsonOfVec e.values) eff),
     ("eff_loaded", jsonOfOpt (jsonOfList jsonOfSample) effLoaded),
     ("eff_param_lists", jsonOfOpt (jsonOfList (fun s => jsonOfVecOpt (paramList cfg sh s))) effLoaded)]
+  -- estimates (exact rationals; only asked for finite sample sets)
+  match j.getObjVal? "stats" with
+  | .ok sj =>
+      let ucs ← getNat sj "ucs"
+      let qlows ← (← getArr sj "qlows").toList.mapM floatOfJson
+      let qlowsM ← (← getArr sj "qlows_mcmc").toList.mapM floatOfJson
+      out := out ++ [
+        ("max_post_index", jsonOfOpt natJson (maxPostIndex ops ss)),
+        ("minimise_idx", jsonOfList natJson (minimiseIdx ops ss))]
+      match mapOpt ratSample ss, mapOpt ratOfFloat qlows, mapOpt ratOfFloat qlowsM with
+      | some rs, some qs, some qms =>
+          out := out ++ [
+            ("stats", Json.mkObj [
+              ("pdf", jsonOfList (fun q => jsonOfOpt (jsonOfList (jsonOfOpt jsonOfEst)) (estimates cfg ucs q sh rs)) qs),
+              ("mcmc", jsonOfList (fun q => jsonOfOpt (jsonOfList (jsonOfOpt jsonOfEst)) (estimatesMCMC cfg q sh rs)) qms)]),
+            ("converged", Json.bool (converged (rs.map (·.w))))]
+          -- the model attached on reload lists the parameters in the order `reorder`
+          match j.getObjVal? "reorder" with
+          | .ok rj =>
+              let idx := (← rj.getArr?).toList.filterMap (·.getNat?.toOption)
+              let sh2 := reorder idx sh
+              out := out ++ [("reordered", Json.mkObj [
+                ("shape", jsonOfList jsonOfParam sh2),
+                ("pdf", jsonOfList (fun q => jsonOfOpt (jsonOfList (jsonOfOpt jsonOfEst)) (estimates cfg ucs q sh2 rs)) qs),
+                ("by_position", jsonOfList (fun q =>
+                  match estimates cfg ucs q sh rs, estimates cfg ucs q sh2 rs with
+                  | some stored, some fresh =>
+                      jsonOfList (fun k => Json.bool (decide (attributed stored k = fresh[k]?))) (List.range idx.length)
+                  | _, _ => Json.null) qs)])]
+          | .error _ => pure ()
+      | _, _, _ => out := out ++ [("stats", Json.null)]
+  | .error _ => pure ()
   pure (Json.mkObj out)
 
 end AF.Driver
